@@ -463,6 +463,14 @@ func init() {
 			c.Family = "C14d-field-types"
 			cells = append(cells, c)
 		}
+		for _, c := range familyF4(false) {
+			if strings.HasPrefix(c.ID, "f4cast_") || strings.HasPrefix(c.ID, "f4pconv_") {
+				// explicit notations whose value needs a conversion that cannot be rendered / has nowhere to put an error
+				c.Meta = c14Meta{Part: "d", Arg: c.ID, Methods: []string{"Conv"}}
+				c.Family = "C14d-field-types"
+				cells = append(cells, c)
+			}
+		}
 		e.Rep.Bound("notation_argument_length_max", maxLen)
 		e.Rep.Rule(fmt.Sprintf("(a) 9 argument-taking notation keywords x every argument string over the %d-symbol alphabet %q up to length %d (method doc; interface doc too for style/match) + all 2-slot strings + 14 plain/unknown keywords x {empty, junk}; "+
 			"(b) :conv/:preprocess/:postprocess naming %d objects (undefined, var, const, type, method expressions, unexported/missing imported, unknown qualifier, builtins, funcs with 0..3 params x 0..3 results x error position, variadic) x method with/without error; "+
